@@ -14,7 +14,7 @@ import json
 import os
 import vlib
 
-PROPS = ['Rangers.Props.C06', 'Rangers.Props.C06Sites']
+PROPS = ['Rangers.Props.C06', 'Rangers.Props.C06Sites', 'Rangers.Props.C06Real']
 DRIVERS = ['C06']
 META = dict(
     level='proof',
@@ -28,8 +28,11 @@ META = dict(
                   'math/big, go-rangers trie/AccountDB storage', 'keccak address derivation (CREATE addresses assumed fresh)'],
     assumptions=['amount strings inside the modelled domain (<=40 mantissa digits, |exp|<=40, no binary exponent): the two '
                  '512-bit roundings of StrToBigInt do not change the truncated integer',
-                 'FormatDecimalForERC20/ForRocket with 18 decimals are the identity on amounts below 2^256',
-                 'CREATE/CREATE2 addresses never collide with a live address',
+                 'the exact balance primitives of the model equal AddFT/SubFT/GetFT/SetFT (decimal-string / 512-bit float round '
+                 'trip) while the sum of all balances is below 2^509 wei - proved, and proved invariant (Props/C06Real); stake '
+                 'debits are exact below 2^53 whole tokens (proved; counterexample at 2^53+1 proved and run on the real functions)',
+                 'created addresses are fresh: CREATE/CREATE2 never land on an address that still holds value (below Proposal002 a '
+                 'reverted creation leaves its endowment behind; generators give creations no value there)',
                  'transaction source is an externally owned account (no code)',
                  'fork configuration: all proposals up to 027 active except 025'],
     rule='distinct op lines (setup, transaction, block) sent to both the implementation and the model whose model answer is '
